@@ -1,5 +1,6 @@
 import EaselModel.Core.Proto
 import EaselModel.Msa.Model
+import EaselModel.Msa.Model2
 import EaselModel.Msa.AbcTables
 /-! Line-protocol driver for the C15 model (alignment transformations, WUSS). Mirrors harness/h_msaops.c. -/
 open EaselModel EaselModel.Proto EaselModel.Msa
@@ -7,6 +8,7 @@ open EaselModel EaselModel.Proto EaselModel.Msa
 structure S where
   a : Option Msa := none
   b : Option Msa := none
+  q : Option Sq := none
 
 def hexN (width : Nat) (x : Nat) : String :=
   let s := Nat.toDigits 16 x
@@ -100,6 +102,53 @@ def exceptSs : Except WErr Bytes → String
   | .ok ss => "ok ss=" ++ oStr (some ss)
   | .error e => werrName e
 
+/-- `esl_DCompare_old(a, b, tol)` in binary64 -/
+def dCompareOld (a b tol : Float) : Bool :=
+  if a.isInf && b.isInf then true
+  else if a.isNaN && b.isNaN then true
+  else if !a.isFinite || !b.isFinite then false
+  else if a == b then true
+  else if a.abs == 0.0 && b.abs <= tol then true
+  else if b.abs == 0.0 && a.abs <= tol then true
+  else 2.0 * (a - b).abs / (a + b).abs <= tol
+
+/-- `esl_FCompare_old(a, b, tol)`: `a-b`, `a+b` in binary32, everything else promoted to binary64 -/
+def fCompareOld (a b tol : Float32) : Bool :=
+  if a.isInf && b.isInf then true
+  else if a.isNaN && b.isNaN then true
+  else if !a.isFinite || !b.isFinite then false
+  else if a == b then true
+  else if a.toFloat.abs == 0.0 && b.toFloat.abs <= tol.toFloat then true
+  else if b.toFloat.abs == 0.0 && a.toFloat.abs <= tol.toFloat then true
+  else 2.0 * (a - b).toFloat.abs / (a + b).toFloat.abs <= tol.toFloat
+
+def dcmpBits (x y : UInt64) : Bool := dCompareOld (Float.ofBits x) (Float.ofBits y) 0.001
+def fcmpBits (x y : UInt32) : Bool := fCompareOld (Float32.ofBits x) (Float32.ofBits y) (0.01 : Float).toFloat32
+
+def floatArith (symfrac : Float) : WArith Float :=
+  { zero := 0.0, add := (· + ·), isCons := fun r tot => r > 0.0 && r / tot >= symfrac }
+
+def cmpName : St → String
+  | .ok => "ok" | .efail => "fail" | .fault => "fault" | s => stName s
+
+def hashName : HashSt → String
+  | .ok => "ok" | .edup => "edup" | .efail => "fail"
+
+def clrField (m : Msa) (f : String) : Option Msa :=
+  if f == "name" then some { m with name := none } else if f == "desc" then some { m with desc := none }
+  else if f == "acc" then some { m with acc := none } else if f == "au" then some { m with au := none }
+  else if f == "ss_cons" then some { m with ss_cons := none } else if f == "sa_cons" then some { m with sa_cons := none }
+  else if f == "pp_cons" then some { m with pp_cons := none } else if f == "rf" then some { m with rf := none }
+  else if f == "mm" then some { m with mm := none } else none
+
+def sqLine (digital : Bool) (f : Fetched) : String :=
+  let seqS := if digital then (if f.seq.isEmpty then "-" else hexOfBytes f.seq) else oStr (some f.seq)
+  let l := "ok name=" ++ oStr (some f.name) ++ " acc=" ++ oStr (some f.acc) ++ " desc=" ++ oStr (some f.desc)
+    ++ " src=" ++ oStr (some f.source) ++ s!" n={f.seq.length} L={f.seq.length} seq=" ++ seqS ++ " ss=" ++ oStr f.ss
+  f.xr.foldl (fun acc t => acc ++ " xr=" ++ oStr (some t.1) ++ "," ++ oStr (some t.2)) l ++ " pad=ok"
+
+def sqResLine (r : SqRes) : String := if r.exc then stName r.st ++ " exception" else stName r.st
+
 def step (s : S) (line : String) : S × String :=
   let ws := words line
   let which : Option Msa := if arg? ws "w" == some "b" then s.b else s.a
@@ -177,11 +226,29 @@ def step (s : S) (line : String) : S × String :=
       match (if ((argInt? ws "i").getD 0) < 0 then none else fetchFromMSA m ((argInt? ws "i").getD 0).toNat) with
       | none => (s, "eod")
       | some f =>
-        let seqS := if m.isDigital then (if f.seq.isEmpty then "-" else hexOfBytes f.seq) else oStr (some f.seq)
-        let l := "ok name=" ++ oStr (some f.name) ++ " acc=" ++ oStr (some f.acc) ++ " desc=" ++ oStr (some f.desc)
-          ++ " src=" ++ oStr (some f.source) ++ s!" n={f.seq.length} L={f.seq.length} seq=" ++ seqS ++ " ss=" ++ oStr f.ss
-        (s, f.xr.foldl (fun acc t => acc ++ " xr=" ++ oStr (some t.1) ++ "," ++ oStr (some t.2)) l ++ " pad=ok")
-  | "swap" :: _ => if s.b.isNone then (s, "noswap") else ({ a := s.b, b := s.a }, "ok")
+        let s := if (argNat? ws "keep").getD 0 != 0 then { s with q := some (sqOfFetch m f) } else s
+        (s, sqLine m.isDigital f)
+  | "sqdump" :: _ =>
+    match s.q with
+    | none => (s, "nosq")
+    | some q => (s, sqLine q.abc.isSome q.f ++ s!" abc={abcName q.abc} start={q.start} end={q.stop}")
+  | "sqdigitize" :: _ =>
+    match s.q, (arg? ws "abc").bind abcOf with
+    | some q, some a => let r := sqDigitize a q; ({ s with q := some r.sq }, sqResLine r)
+    | _, _ => (s, "bad-op")
+  | "sqtextize" :: _ =>
+    match s.q with
+    | some q => let r := sqTextize q; ({ s with q := some r.sq }, sqResLine r)
+    | none => (s, "bad-op")
+  | "sqrevcomp" :: _ =>
+    match s.q with
+    | some q => let r := sqReverseComplement q; ({ s with q := some r.sq }, sqResLine r)
+    | none => (s, "bad-op")
+  | "sqdegen2x" :: _ =>
+    match s.q with
+    | some q => let r := sqConvertDegen2X q; ({ s with q := some r.sq }, sqResLine r)
+    | none => (s, "bad-op")
+  | "swap" :: _ => if s.b.isNone then (s, "noswap") else ({ s with a := s.b, b := s.a }, "ok")
   | "digitize" :: _ =>
     match s.a, (arg? ws "abc").bind abcOf with
     | some m, some a => let r := digitize a m; ({ s with a := some r.msa }, resLine r)
@@ -262,6 +329,58 @@ def step (s : S) (line : String) : S × String :=
       let thr := Float.ofBits (UInt64.ofNat bits)
       let m' := markFragmentsOld m (fun rlen => Float.ofNat rlen ≤ thr * Float.ofNat m.alen)
       ({ s with a := some m' }, "ok")
+    | _, _ => (s, "bad-op")
+  | "clr" :: _ =>
+    match s.a, (arg? ws "f") with
+    | some m, some f => (match clrField m f with | some m' => ({ s with a := some m' }, "ok") | none => (s, "bad-op"))
+    | _, _ => (s, "bad-op")
+  | "clrcut" :: _ =>
+    match s.a, argNat? ws "i" with
+    | some m, some k => if k ≥ 6 then (s, "bad-op") else ({ s with a := some { m with cutset := m.cutset.set k false } }, "ok")
+    | _, _ => (s, "bad-op")
+  | "compare" :: _ =>
+    match s.a, s.b with
+    | some a, some b => (s, cmpName (compare dcmpBits fcmpBits a b) ++ " repinv=ok")
+    | _, _ => (s, "bad-op")
+  | "cmpmand" :: _ =>
+    match s.a, s.b with
+    | some a, some b => (s, cmpName (compareMandatory dcmpBits a b) ++ " repinv=ok")
+    | _, _ => (s, "bad-op")
+  | "cmpopt" :: _ =>
+    match s.a, s.b with
+    | some a, some b => if a.nseq != b.nseq then (s, "bad-op") else (s, cmpName (compareOptional fcmpBits a b) ++ " repinv=ok")
+    | _, _ => (s, "bad-op")
+  | "checksum" :: _ =>
+    match which with
+    | some m => (s, "ok sum=" ++ hexN 8 (checksum m).toNat)
+    | none => (s, "nomsa")
+  | "hash" :: _ =>
+    match which with
+    | some m => (s, hashName (hashNames m))
+    | none => (s, "nomsa")
+  | "uniq" :: _ =>
+    match which with
+    | some m => (s, hashName (checkUniqueNames m))
+    | none => (s, "nomsa")
+  | "degen2x" :: _ =>
+    match s.a with
+    | some m => let r := convertDegen2X m; ({ s with a := some r.msa }, resLine r)
+    | none => (s, "bad-op")
+  | "symconvert" :: _ =>
+    match s.a, argStr? ws "old", argStr? ws "new" with
+    | some m, some o, some n => let r := symConvert m o n; ({ s with a := some r.msa }, resLine r)
+    | _, _, _ => (s, "bad-op")
+  | "defwgts" :: _ =>
+    match s.a with
+    | some m => ({ s with a := some (setDefaultWeights m) }, "ok")
+    | none => (s, "bad-op")
+  | "reasonablerf" :: _ =>
+    match s.a, arg? ws "symfrac" with
+    | some m, some t =>
+      let bits := t.toList.foldl (fun acc c => acc * 16 + (hexVal c).getD 0) 0
+      match reasonableRF (floatArith (Float.ofBits (UInt64.ofNat bits))) m (m.wgt.map Float.ofBits) with
+      | some rf => (s, "ok ss=" ++ oStr (some rf))
+      | none => (s, "fault")
     | _, _ => (s, "bad-op")
   | "wuss2ct" :: _ =>
     match argStr? ws "ss" with
